@@ -3,6 +3,8 @@ package websocket
 import (
 	"errors"
 	"io"
+
+	"github.com/lesismal/nbio/mempool"
 )
 
 // C11 (WebSocket part) — pooled-buffer ownership across Parse, message
@@ -194,5 +196,28 @@ func verifHarness_C11_ws_send_queue_close_during_drain() {
 	}
 	ep.c.CloseAndClean(nil)
 	verifAssertD(tr.frees <= tr.mallocs, "no-more-frees-than-allocations", "send-queue")
+	verifAssert(false, "witness")
+}
+
+// the size-aligned allocator as the engine's body allocator: after frames with
+// an EMPTY payload (ping, pong, empty message — nothing was taken from the pool
+// for them) the pool must still hand out sound buffers.
+func verifHarness_C11_ws_empty_payloads_aligned_allocator() {
+	verifPoolMode(1)
+	alloc := mempool.NewAligned()
+	ep := verifNewEndpoint(false, false, 0, alloc)
+	kind := verifChoose("frame", 3)
+	frame := [][]byte{
+		{0x80 | byte(PingMessage), 0},
+		{0x80 | byte(PongMessage), 0},
+		{0x80 | byte(BinaryMessage), 0},
+	}[kind]
+	panics0 := verifPanicCount()
+	err := ep.c.Parse(frame)
+	verifAssertD(err == nil, "frame-accepted", "empty-payload")
+	n := 1 + verifChoose("next_malloc", 32)
+	p := alloc.Malloc(n)
+	verifAssertD(verifPanicCount() == panics0, "no-panic-in-allocator", "after-empty-payload")
+	verifAssertD(p != nil && len(*p) == n, "malloc-length", "after-empty-payload")
 	verifAssert(false, "witness")
 }
